@@ -9,10 +9,16 @@ transformers write nodes in place) and compared with the expression of the corre
 sink of the result; plus the extra claims for dedup / split / expand.
 Expansion: sub-graph templates with no / explicit input and output maps of every shape (empty, partial, identity, swapping,
 fan-in, extra keys) whose node names collide with the names the maps talk about (gen_template_maps, SHAPES).
+Fusion callbacks answer with a new Node, with the child object written in place, a mix of both, or the child as it is (FMODES, FKeep).
+Sessions (gen_session / run_session): programs of several operations in one process on Graph objects that live on -- Graph.empty(), +, +=,
+join_namespaced (1-3 graphs, the same graph twice, adversarial namespaces), and copy / rename / dedup / fuse applied to graphs made by
+earlier operations (graphs sharing node objects, renamed / fused-in-place nodes); after EVERY operation every graph made so far is read again.
 Correspondence: the Gallina models (coq/theories/Graph/{Engine,Copy,Rename,Dedup,Split,
 Expand,Fuse}.v) are evaluated inside Coq on the same graphs and compared with the observed
 result graph up to renumbering of nodes (exact names, outputs, payloads, inputs and their
-order, sinks and their order; exception type when the real function raises)."""
+order, sinks and their order; exception type when the real function raises); sessions: the sink lists of ALL graph objects after every
+operation against the list-object store of Graph/GraphOps.v (check_session), the transformer calls inside sessions against the node-level
+models as above."""
 import json
 
 from common import cZ, cbool, clist, cnat, copt, coq_results, cstr, load_findings
@@ -21,7 +27,10 @@ TRUSTED = [
     "harness/c11.py: identity-based numbering of Node objects in a topological order (Python object -> heap index); payload <-> pv conversion; "
     "the symbolic interpreter (nexpr) used by the property oracle",
     "in-place writes to Node objects are modelled as new versions appended to a result heap (Engine.v header): object identity between input and result "
-    "graphs is not part of the model (the property does not mention it)",
+    "graphs is not part of the model (the property does not mention it) -- except where it decides what is computed: the fusion callback's answer says "
+    "whether it is the child OBJECT written in place (Fuse.v: self / is_self), a Graph holds a sink-list OBJECT (GraphOps.v)",
+    "harness/c11.py sessions: numbering of Node objects by identity for the whole session (objects kept alive); the expected denotations of a session are "
+    "computed by the harness from the operation's arguments (lists of expression ids)",
 ]
 ASSUMPTIONS = [
     "graph objects are numbered topologically (an input points to a smaller index): every acyclic pointer graph has such a numbering; cyclic Node structures are outside the property",
@@ -40,11 +49,19 @@ ASSUMPTIONS = [
     "C11_expand_preserves_partial: hypothesis splice_denotes (every spliced sub-graph denotes the node it replaces, stated on the result of the model's splice step); the expander returns a FRESH sub-graph on every call",
     "C11_fuse_preserves: node.inputs is a dict (distinct input names); the callback contract (result refers to existing nodes only, keeps the child's other inputs, denotes the child when the child's input cin is fed by "
     "something denoting the parent's output) -- the harness's `inline` callback is checked against this reading by the oracle (fused nodes are read as child-with-parent-inlined), not proved to satisfy it",
+    "C11_fuse_preserves covers callbacks that answer with a new node or with the child object they were handed, written in place; a callback that writes the "
+    "PARENT object (or any other node) is outside the contract",
+    "C11_graph_ops_frame: programs that never hand a graph's own list to the constructor (wrap_free; Graph(g.sinks) keeps the list and is expressible in the model: GWrap); "
+    "which node objects a transformer / join_namespaced returns is read off the observation (GTrans, parts of GJoin), the model fixes their number and allocates the list. "
+    "C11_join_preserves: each argument is renamed from its own heap (arguments sharing node objects are renamed more than once by the source: names are not part of "
+    "what a node denotes); the joined graph is the disjoint union of the renamed graphs",
+    "sessions: every transformer but split/expand keeps what its INPUT graph (and every graph sharing nodes with it) denotes, fused nodes read as child-with-parent-inlined "
+    "-- the oracle demands it of copy/rename/dedup/fuse/join/+/+=; split and expand replace inputs of the nodes they are given and are not part of sessions",
     "Node.__init__ cannot bind inputs called self/name/outputs/payload (TypeError in Node.copy / splice_sink, modelled by mk_node); generated graphs are built with Node(...), so such inputs do not occur",
 ]
 
 HEADER = """From Coq Require Import List String Bool Arith ZArith.
-From EKW Require Import Graph.GStore Graph.ExportCheck Graph.Engine Graph.Split Graph.Expand Graph.EngineCheck.
+From EKW Require Import Graph.GStore Graph.ExportCheck Graph.Engine Graph.Split Graph.Expand Graph.EngineCheck Graph.GraphOps Graph.GraphOpsCheck.
 Import ListNotations.
 Open Scope string_scope.
 Open Scope list_scope.
@@ -996,14 +1013,17 @@ def run_expand(spec, rules, out):
 
 
 # ----------------------------------------------------------------------------- fuse
-FFUNS = ["FAlways", "FAlways", "FPayload", "FNever"]
+FFUNS = ["FAlways", "FAlways", "FPayload", "FNever", "FAlways", "FPayload", "FKeep"]
+# which OBJECT carries the fused node: a new Node (the test-suite's way), the child object itself written in place and returned,
+# or one or the other from call to call.  fuse_nodes promises the same for all of them ("if func returns a node, use it")
+FMODES = ["MNew", "MSame", "MMix", "MSame", "MNew", "MMix"]
 
 
 def enc_pay(p):
     return ("N",) if p is None else p
 
 
-def make_callback(ff, log):
+def make_callback(ff, log, mode="MNew"):
     from earthkit.workflows.graph import Node
 
     def inline(parent, pout, cur, cin):
@@ -1014,13 +1034,20 @@ def make_callback(ff, log):
         ins = dict(others)
         for k, v in parent.inputs.items():
             ins[pre + k] = v
-        return Node(parent.name + "+" + cur.name, list(cur.outputs),
-                    ("F", enc_pay(parent.payload), [o for o in parent.outputs], pout, enc_pay(cur.payload), cin), **ins)
+        name = parent.name + "+" + cur.name
+        pay = ("F", enc_pay(parent.payload), [o for o in parent.outputs], pout, enc_pay(cur.payload), cin)
+        if mode == "MSame" or (mode == "MMix" and len(cur.name) % 2 == 0):
+            # absorb the parent into the child IN PLACE: the object handed in as `current` is the fused node
+            cur.name, cur.payload, cur.inputs = name, pay, ins
+            return cur
+        return Node(name, list(cur.outputs), pay, **ins)
 
     def cb(parent, pout, cur, cin):
         log.append((parent.name, pout, cur.name, cin))
         if ff == "FNever":
             return None
+        if ff == "FKeep":
+            return cur          # "fused": the child as it is
         if ff == "FPayload" and parent.payload is None:
             return None
         return inline(parent, pout, cur, cin)
@@ -1050,20 +1077,21 @@ def fev(pay, outs, args, it):
 
 def drive_fuse(spec, rng, out):
     ff = rng.choice(FFUNS)
-    out["params"] = {"ffun": ff}
-    return run_fuse(spec, ff, out)
+    mode = rng.choice(FMODES)
+    out["params"] = {"ffun": ff, "mode": mode}
+    return run_fuse(spec, ff, out, mode)
 
 
-def run_fuse(spec, ff, out):
+def run_fuse(spec, ff, out, mode="MNew"):
     from earthkit.workflows.graph import Graph, fuse_nodes
     g, _ = build_spec(spec)
     it = Interner()
     memo = {}
     before = [fexpr(s, it, memo) for s in g.sinks]
     log = []
-    g2, obs, exc = observed(lambda: fuse_nodes(make_callback(ff, log), g))
+    g2, obs, exc = observed(lambda: fuse_nodes(make_callback(ff, log, mode), g))
     calls = "(" + clist([f"({cstr(a)}, {cstr(b)}, {cstr(c)}, {cstr(d)})" for a, b, c, d in log]) + " : list (string * string * string * string))"
-    out["coq"].append(("fuse", f"({ff}, {coq_spec(spec)}, {obs}, {calls})"))
+    out["coq"].append(("fuse", f"({ff}, {mode}, {coq_spec(spec)}, {obs}, {calls})"))
     if exc:
         return ("fuse-raises-" + exc, f"fuse_nodes raised {exc}")
     if not isinstance(g2, Graph) or len(g2.sinks) != len(before):
@@ -1086,14 +1114,268 @@ def run_fuse(spec, ff, out):
     return None
 
 
+# ----------------------------------------------------------------------------- sessions: programs over Graph objects
+# Several operations in ONE process on graphs that live on: Graph.empty(), +, +=, join_namespaced, and the transformers applied to
+# graphs made by earlier operations (results of joins, renamed / fused / de-duplicated nodes, graphs sharing node objects).  After
+# EVERY operation every graph object created so far is read again: the graph the operation returned must denote what the property
+# says (join: the sinks of its arguments, in keyword order; + : a's then b's; += : a's then b's, in a; empty: none; copy / rename /
+# fuse: sink by sink; dedup: the same set), and every OTHER graph -- arguments included: the transformers write nodes in place, but
+# never change what they denote -- must denote what it denoted.
+NAMESPACES = ["a", "b", "main", "a.b", "", "ns", "m", "0", "x.", " "]
+SESSION_FLAVOURS = ["plain", "chain", "dups", "wide", "plain", "chain"]
+
+
+def gen_session(rng, flavour="plain", maxn=8, maxops=9):
+    pool = gen_spec(rng, flavour, maxn=maxn)
+    n = len(pool["nodes"])
+    ops, nv = [], 0
+
+    def pick_sinks():
+        k = rng.choice([1, 1, 2, 2, 3])
+        if rng.random() < 0.5:
+            consumed = {j for nd in pool["nodes"] for (_, j, _) in nd["inputs"]}
+            term = [i for i in range(n) if i not in consumed]
+            return rng.sample(term, min(k, len(term)))
+        return [rng.randrange(n) for _ in range(k)]
+    for _ in range(rng.choice([1, 2, 2, 3])):
+        ops.append(["new", pick_sinks()])
+        nv += 1
+    last_empty = None
+    for _ in range(rng.randrange(3, maxops + 1)):
+        r = rng.random()
+        if last_empty is not None and r < 0.7:
+            ops.append(["iadd", last_empty, rng.randrange(nv)])       # e = Graph.empty(); e += g
+            last_empty = None
+            continue
+        if r < 0.30:
+            k = rng.choice([1, 1, 2, 2, 3])
+            nss = rng.sample(NAMESPACES, k)
+            ops.append(["join", [[ns, rng.randrange(nv)] for ns in nss]])
+            nv += 1
+        elif r < 0.40:
+            ops.append(["add", rng.randrange(nv), rng.randrange(nv)])
+            nv += 1
+        elif r < 0.50:
+            ops.append(["iadd", rng.randrange(nv), rng.randrange(nv)])
+        elif r < 0.62:
+            ops.append(["empty"])
+            last_empty = nv
+            nv += 1
+        elif r < 0.68:
+            ops.append(["copy", rng.randrange(nv)])
+            nv += 1
+        elif r < 0.74:
+            ops.append(["rename", rng.randrange(nv), list(rng.choice(RFUNS))])
+            nv += 1
+        elif r < 0.81:
+            ops.append(["dedup", rng.randrange(nv)])
+            nv += 1
+        elif r < 0.90:
+            ops.append(["fuse", rng.randrange(nv), rng.choice(FFUNS), rng.choice(FMODES)])
+            nv += 1
+        elif r < 0.95:
+            ops.append(["new", pick_sinks()])
+            nv += 1
+        else:
+            ops.append(["newspec", spec_to_json(gen_spec(rng, "chain", maxn=4))])
+            nv += 1
+    return {"pool": spec_to_json(pool), "ops": ops}
+
+
+def reach_ids(g):
+    return {id(o) for o in topo_objects(g.sinks)}
+
+
+def run_session(prog, out):
+    from earthkit.workflows.graph import Graph, copy_graph, deduplicate_nodes, fuse_nodes, join_namespaced, rename_nodes
+    pool = spec_from_json(prog["pool"])
+    _, objs = build_spec({"nodes": pool["nodes"], "sinks": []})
+    it = Interner()
+    ids, keep = {}, []
+
+    def nid(o):
+        if id(o) not in ids:
+            ids[id(o)] = len(ids)
+            keep.append(o)          # (alive to the end: identities are not re-used)
+        return ids[id(o)]
+    for o in objs:
+        nid(o)
+    graphs, exp, steps = [], [], []
+
+    def denots(g):
+        memo = {}
+        return [fexpr(s, it, memo) for s in g.sinks]
+
+    def recheck(kind, new, target=None):
+        for v, g in enumerate(graphs):
+            try:
+                got = denots(g)
+            except Exception as e:
+                return (f"session-{kind}-graph-unreadable", f"after {kind}: graph #{v} cannot be evaluated ({type(e).__name__}: {e})"[:300])
+            if got != exp[v]:
+                if v == new:
+                    return (f"session-{kind}-result-differs", f"{kind}: the sinks of the returned graph (#{v}: {len(got)} sinks) do not denote what the property says ({len(exp[v])} sinks expected)")
+                if v == target:
+                    return (f"session-{kind}-target-differs", f"{kind}: graph #{v} has {len(got)} sinks afterwards, expected its own followed by the other's ({len(exp[v])})")
+                return (f"session-{kind}-changes-other-graph",
+                        f"{kind} changed what graph #{v}, made by an earlier operation and not written by this one, denotes ({len(exp[v])} sinks before, {len(got)} now)")
+        return None
+
+    def term_ids(l):
+        return clist([cnat(i) for i in l])
+    def real(fn):
+        """only the calls into the implementation are guarded"""
+        try:
+            return fn(), None
+        except Exception as e:
+            return None, e
+
+    for op in prog["ops"]:
+        kind = op[0]
+        new = target = None
+        err = None
+        if kind in ("new", "newspec"):
+            if kind == "new":
+                g, err = real(lambda: Graph([objs[i] for i in op[1]]))
+            else:
+                g, err = real(lambda: build_spec(spec_from_json(op[1]))[0])
+            if not err:
+                graphs.append(g)
+                exp.append(denots(g))
+                new = len(graphs) - 1
+                term = f"(GNew {term_ids([nid(s) for s in g.sinks])})"
+        elif kind == "empty":
+            g, err = real(Graph.empty)
+            if not err:
+                graphs.append(g)
+                exp.append([])
+                new = len(graphs) - 1
+                term = "GEmpty"
+        elif kind == "add":
+            a, b = op[1], op[2]
+            want = exp[a] + exp[b]
+            g, err = real(lambda: graphs[a] + graphs[b])
+            if not err:
+                graphs.append(g)
+                exp.append(want)
+                new = len(graphs) - 1
+                term = f"(GAdd {cnat(a)} {cnat(b)})"
+        elif kind == "iadd":
+            a, b = op[1], op[2]
+            want = exp[a] + exp[b]
+
+            def iadd():
+                g = graphs[a]
+                g += graphs[b]
+                return g
+            g, err = real(iadd)
+            if not err:
+                if g is not graphs[a]:
+                    return ("session-iadd-rebinds", "g += h returned another object"), steps
+                exp[a] = want
+                target = a
+                term = f"(GIAdd {cnat(a)} {cnat(b)})"
+        elif kind == "join":
+            pairs = op[1]
+            args = {ns: graphs[a] for ns, a in pairs}
+            lens = [len(graphs[a].sinks) for _, a in pairs]
+            reach = [reach_ids(graphs[a]) for _, a in pairs]
+            disjoint = sum(len(r) for r in reach) == len(set().union(*reach))
+            pre = [coq_graph(graphs[a]) for _, a in pairs] if disjoint else None
+            want = [e for _, a in pairs for e in exp[a]]
+            g, err = real(lambda: join_namespaced(**args))
+            if not err and not isinstance(g, Graph):
+                return ("session-join-result-not-a-graph", f"result is {type(g).__name__}"), steps
+            if not err:
+                graphs.append(g)
+                exp.append(want)
+                new = len(graphs) - 1
+                got_ids = [nid(s) for s in g.sinks]
+                parts, k = [], 0
+                for (_, a), n_ in zip(pairs, lens):
+                    parts.append(f"({cnat(a)}, {term_ids(got_ids[k:k + n_])})")
+                    k += n_
+                if k != len(got_ids):
+                    parts[-1] = f"({cnat(pairs[-1][1])}, {term_ids(got_ids[k - lens[-1]:])})"
+                term = f"(GJoin {clist(parts)})"
+                if pre is not None and k == len(got_ids):
+                    # node level: each argument renamed with its namespace (Graph/Rename.v), argument by argument
+                    k = 0
+                    for (ns, a), n_, gt in zip(pairs, lens, pre):
+                        part = Graph(g.sinks[k:k + n_])
+                        k += n_
+                        try:
+                            out["coq"].append(("rename", f"(RPrefix {cstr(ns + '.')}, {gt}, o_ok {coq_graph(part)})"))
+                        except Exception:
+                            pass            # (the oracle below reports a result that is not a graph)
+        elif kind in ("copy", "rename", "dedup", "fuse"):
+            a = op[1]
+            gt = coq_graph(graphs[a])
+            if kind == "copy":
+                g, obs, exc = observed(lambda: copy_graph(graphs[a]))
+                out["coq"].append(("copy", f"({gt}, {obs})"))
+            elif kind == "rename":
+                rf = tuple(op[2])
+                g, obs, exc = observed(lambda: rename_nodes(rfun_py(rf), graphs[a]))
+                out["coq"].append(("rename", f"({rfun_coq(rf)}, {gt}, {obs})"))
+            elif kind == "dedup":
+                g, obs, exc = observed(lambda: deduplicate_nodes(graphs[a]))
+                out["coq"].append(("dedup", f"({gt}, {obs})"))
+            else:
+                log = []
+                g, obs, exc = observed(lambda: fuse_nodes(make_callback(op[2], log, op[3]), graphs[a]))
+                calls = "(" + clist([f"({cstr(x)}, {cstr(y)}, {cstr(z)}, {cstr(w)})" for x, y, z, w in log]) + " : list (string * string * string * string))"
+                out["coq"].append(("fuse", f"({op[2]}, {op[3]}, {gt}, {obs}, {calls})"))
+            if exc:
+                return (f"session-{kind}-raises-{exc}", f"{kind} of a graph made by earlier operations raised {exc}"), steps
+            if not isinstance(g, Graph):
+                return (f"session-{kind}-result-not-a-graph", f"result is {type(g).__name__}"), steps
+            if kind == "dedup":
+                got = denots(g)
+                if set(got) != set(exp[a]):
+                    return ("session-dedup-result-differs", "deduplicate_nodes of a graph made by earlier operations: the sinks of the result do not denote the same set of expressions"), steps
+                exp.append(got)
+            else:
+                exp.append(list(exp[a]))
+            graphs.append(g)
+            new = len(graphs) - 1
+            term = f"(GTrans {cnat(a)} {cbool(kind != 'dedup')} {term_ids([nid(s) for s in g.sinks])})"
+        else:
+            raise ValueError(kind)
+        if err:
+            return (f"session-{kind}-raises-{type(err).__name__}", f"{kind} raised {type(err).__name__}: {err}"[:300]), steps
+        steps.append(f"({term}, {clist([term_ids([nid(s) for s in g2.sinks]) for g2 in graphs])})")
+        bad = recheck(kind, new, target)
+        if bad:
+            return bad, steps
+    return None, steps
+
+
+def session_features(prog, res):
+    kinds = [op[0] for op in prog["ops"]]
+    res.count(f"session:ops:{min(len(kinds), 12)}")
+    if kinds.count("join") >= 2:
+        res.count("session:two-or-more-joins")
+    if kinds.count("empty") >= 2:
+        res.count("session:two-or-more-empty")
+    if "iadd" in kinds:
+        res.count("session:in-place-add")
+    if any(k in kinds for k in ("dedup", "fuse", "rename", "copy")):
+        res.count("session:transformer-on-earlier-result")
+    for k in set(kinds):
+        res.count("session:has-" + k)
+
+
 DRIVERS = {"copy": drive_copy, "rename": drive_rename, "dedup": drive_dedup, "split": drive_split, "expand": drive_expand, "fuse": drive_fuse}
 REPLAYERS = {"copy": lambda spec, params, out: drive_copy(spec, None, out),
              "rename": lambda spec, params, out: run_rename(spec, tuple(params["rfun"]), out),
              "dedup": lambda spec, params, out: drive_dedup(spec, None, out),
              "split": lambda spec, params, out: run_split(spec, tuple(params["kfun"]), out),
              "expand": lambda spec, params, out: run_expand(spec, rules_from_json(params["rules"]), out),
-             "fuse": lambda spec, params, out: run_fuse(spec, params["ffun"], out)}
-CHECKERS = {"copy": "check_copy", "rename": "check_rename", "dedup": "check_dedup", "split": "check_split", "expand": "check_expand", "fuse": "check_fuse"}
+             "fuse": lambda spec, params, out: run_fuse(spec, params["ffun"], out, params.get("mode", "MNew"))}
+CHECKERS = {"copy": "check_copy", "rename": "check_rename", "dedup": "check_dedup", "split": "check_split", "expand": "check_expand", "fuse": "check_fuse",
+            "session": "check_session"}
+CASE_TYPES = {"session": "list (gop * list (list nat))"}
 FLAVOURS = {"copy": ["plain", "plain", "wide", "chain", "dup-names"],
             "rename": ["plain", "plain", "wide", "chain", "dup-names"],
             "dedup": ["dups", "dups", "plain", "dups", "chain", "dup-names", "tiny"],
@@ -1155,6 +1437,18 @@ SHAPES = [
 ]
 
 
+_CH = {"nodes": [_n("reader", None, {"s": "r"}), _n("step", None, {"s": "s"}, [("input", 0, "0")]), _n("writer", [], {"s": "w"}, [("input", 1, "0")]),
+                 _n("r2", None, {"i": 1}), _n("w2", [], {"i": 2}, [("x", 3, "0")]), _n("w3", [], None, [("y", 3, "0"), ("x", 1, "0")])], "sinks": []}
+# hand-written programs (kept as fixed cases): the same call made twice in one process, empty graphs extended in place, a graph
+# fused in place and then copied / de-duplicated / joined
+SESSIONS = [
+    {"pool": _CH, "ops": [["new", [2]], ["new", [4]], ["join", [["a", 0], ["b", 1]]], ["new", [5]], ["join", [["c", 3]]], ["join", [["a", 0]]]]},
+    {"pool": _CH, "ops": [["new", [2]], ["new", [4, 5]], ["empty"], ["iadd", 2, 0], ["empty"], ["iadd", 3, 1], ["empty"], ["add", 2, 3], ["iadd", 0, 0], ["iadd", 4, 5]]},
+    {"pool": _CH, "ops": [["new", [2, 5]], ["fuse", 0, "FAlways", "MSame"], ["copy", 1], ["dedup", 2], ["join", [["", 3], ["a.b", 0]]], ["fuse", 4, "FPayload", "MMix"],
+                          ["rename", 5, ["RConst", "same"]]]},
+]
+
+
 def nontrivial(spec):
     reach = reachable(spec)
     return len(reach) >= 3 and any(spec["nodes"][i]["inputs"] for i in reach)
@@ -1201,7 +1495,9 @@ def run(ctx, res):
                 "('main','min','main.min','m',...), output names partly real Node attributes, input names partly callback parameter names) run through each real "
                 "transformation; expanders return sub-graphs with no / explicit input and output maps (empty, partial, identity, swapping, several sources on one "
                 "input, several outputs on one leaf, keys naming no source / no output) whose node names collide with the node's input and output names and with the "
-                "map keys and values (histogram expand:*). non-trivial = at least 3 reachable nodes and 1 edge; distinct = distinct (transformation, spec, parameters)")
+                "map keys and values (histogram expand:*); fusion callbacks answering with a new node / the child object written in place / a mix / the child as it is; "
+                "sessions = programs of 4-12 operations (empty, +, +=, join_namespaced, copy, rename, dedup, fuse) on graphs that live on and share nodes (histogram session:*). "
+                "non-trivial = at least 3 reachable nodes and 1 edge (sessions: at least 4 operations); distinct = distinct (transformation, spec, parameters) / distinct program")
     cases = {tr: [] for tr in DRIVERS}
     metas = {tr: [] for tr in DRIVERS}
     per = ctx.n(100, 1500)
@@ -1233,6 +1529,32 @@ def run(ctx, res):
                 res.fail(bad[0], bad[1], case)
             if len(res.samples) < 4 and i == 3:
                 res.samples.append({"transformation": tr, "spec": spec_to_json(spec), "params": out["params"], "oracle": bad[1] if bad else "ok"})
+    # programs over Graph objects: several operations in one process on graphs that live on
+    cases["session"], metas["session"] = [], []
+    srng = ctx.sub_rng("gen-session")
+    progs = [("hand-written", p) for p in SESSIONS]
+    for i in range(ctx.n(100, 1500)):
+        flavour = SESSION_FLAVOURS[i % len(SESSION_FLAVOURS)]
+        progs.append((flavour, gen_session(srng, flavour)))
+    for k, (flavour, prog) in enumerate(progs):
+        out = {"coq": []}
+        case = {"kind": "session", "flavour": flavour, "prog": prog}
+        bad, steps = run_session(prog, out)
+        res.evaluations += 1
+        res.count("flavour:session-" + flavour)
+        session_features(prog, res)
+        if len(prog["ops"]) >= 4:
+            res.nontrivial_keys.add(json.dumps(case, sort_keys=True))
+        cases["session"].append(clist(steps))
+        metas["session"].append(case)
+        if k % 2 == 0 or bad:       # node-level correspondence of the transformer calls inside sessions: every other session (cost)
+            for kind, term in out["coq"]:
+                cases[kind].append(term)
+                metas[kind].append(case)
+        if bad:
+            res.fail(bad[0], bad[1], case)
+        if flavour == "plain" and sum(1 for x in res.samples if x.get("transformation") == "session") < 1:
+            res.samples.append({"transformation": "session", "prog": prog, "oracle": bad[1] if bad else "ok"})
     # the witnesses of the defects repaired by the fix: commits, kept as fixed regression cases
     for tr, spec_j, params in WITNESSES:
         out = {"coq": [], "params": params}
@@ -1262,7 +1584,7 @@ def run(ctx, res):
     from concurrent.futures import ThreadPoolExecutor
     kinds = [k for k, terms in cases.items() if terms]
     with ThreadPoolExecutor(max_workers=ctx.n(6, 2)) as ex:
-        outs = list(ex.map(lambda k: coq_results("C11", HEADER, cases[k], CHECKERS[k], shard=ctx.n(30, 60), tag=k), kinds))
+        outs = list(ex.map(lambda k: coq_results("C11", HEADER, cases[k], CHECKERS[k], shard=ctx.n(30, 60), tag=k, case_type=CASE_TYPES.get(k)), kinds))
     for kind, (r, logs) in zip(kinds, outs):
         res.corr_checked += len(r)
         res.count("coq-cases:" + kind, len(r))
@@ -1289,6 +1611,16 @@ def search(ctx, res):
             if bad:
                 return {"signature": bad[0], "what": bad[1],
                         "case": {"kind": "spec", "transformation": tr, "flavour": flavour, "spec": spec_to_json(spec), "params": out["params"]}}
+    rng = ctx.sub_rng("search-session")
+    for i in range(4000):
+        flavour = SESSION_FLAVOURS[i % len(SESSION_FLAVOURS)]
+        prog = gen_session(rng, flavour, maxn=5, maxops=6)
+        try:
+            bad, _ = run_session(prog, {"coq": []})
+        except Exception:
+            continue
+        if bad:
+            return {"signature": bad[0], "what": bad[1], "case": {"kind": "session", "flavour": flavour, "prog": prog}}
     return None
 
 
@@ -1296,6 +1628,9 @@ def replay(ctx, case):
     import warnings
     warnings.simplefilter("ignore")
     c = case.get("case", case)
+    if c.get("kind") == "session":
+        bad, _ = run_session(c["prog"], {"coq": []})
+        return {"fails": bool(bad), "failure": {"signature": bad[0], "what": bad[1]} if bad else None}
     if c.get("kind") != "spec":
         return {"fails": None, "note": "this replay names a broken proof / correspondence: re-run ./check C11"}
     out = {"coq": [], "params": {}}
